@@ -92,3 +92,5 @@ func c05load(g *Gen, i int, path string, files map[string]string, names []string
 	}
 	return p.NewUniverse()
 }
+
+func c02nresults(s *types.Signature) int { return len(s.Results) }
